@@ -673,9 +673,6 @@ class SymSW(Domain):
         raise HarnessError(f"not an SW value: {w!r} ({type(w).__name__})")
 
     # number adapter for oracles
-    zero = z3.RealVal(0)
-    one = z3.RealVal(1)
-
     def ovar(self, k, present):
         "the oracle's view of weight k on the current path"
         return self.zvar(k) if present else z3.RealVal(0)
